@@ -30,6 +30,7 @@ type ReqStep struct {
 	Res   string `json:"res"`   // resource (index name / kv key) the request names
 	Tok   string `json:"tok"`   // token name ("", "root", "read_all", ..., or a manipulation "tamper:read_all")
 	Note  string `json:"note,omitempty"`
+	NodeNS string `json:"node_ns,omitempty"` // graph routes: the node id is written "<NodeNS>::v1" (the engine's internal spelling of a node of another index)
 	Decoy string `json:"decoy,omitempty"` // path-addressed routes: an "index_name" planted in the body (the path names the resource, the body must not)
 }
 
@@ -249,6 +250,9 @@ func runC16(w *World, tr *Trace) {
 			if c16Routes[rt].kind == "index" && r.Intn(3) == 0 {
 				st.Decoy = pick(r, c16Indexes)
 			}
+			if strings.HasPrefix(c16Routes[rt].path(""), "/graph/") && r.Intn(3) == 0 {
+				st.NodeNS = pick(r, c16Indexes)
+			}
 			// bias towards the interesting combinations
 			if r.Intn(3) == 0 {
 				st.Tok = pick(r, []string{"read_all", "read_alpha", "write_alpha", "write_all"})
@@ -277,6 +281,8 @@ func runC16(w *World, tr *Trace) {
 				s.do("POST", "/vector/actions/add", c16Root, map[string]any{"index_name": ix, "id": fmt.Sprintf("v%d", i), "vector": []float32{float32(i), 1}, "metadata": map[string]any{"secret": "MARK_" + strings.ToUpper(ix)}})
 			}
 			s.do("POST", "/graph/actions/link", c16Root, map[string]any{"index_name": ix, "source_id": "v1", "target_id": "v3", "relation_type": "rel"})
+			// a link target whose id names the index: graph reads that cross the namespace show it
+			s.do("POST", "/graph/actions/link", c16Root, map[string]any{"index_name": ix, "source_id": "v1", "target_id": "tgt_MARK_" + strings.ToUpper(ix), "relation_type": "rel"})
 		}
 		for _, k := range c16Keys {
 			s.do("POST", "/kv/"+k, c16Root, map[string]any{"value": "orig-" + k})
@@ -323,6 +329,13 @@ func runC16(w *World, tr *Trace) {
 				var body any
 				if rt.body != nil {
 					body = rt.body(st.Res, i)
+					if bm, ok := body.(map[string]any); ok && st.NodeNS != "" {
+						for _, f := range []string{"source_id", "node_id"} {
+							if _, has := bm[f]; has {
+								bm[f] = st.NodeNS + "::v1"
+							}
+						}
+					}
 					if bm, ok := body.(map[string]any); ok && st.Decoy != "" {
 						if _, has := bm["index_name"]; !has {
 							bm["index_name"] = st.Decoy
